@@ -10,6 +10,7 @@ from .core import X
 GRID = [-3, -2, -1, -0.5, -0.25, 0, 0.25, 0.5, 1, 1.5, 2, 3, 4]
 CONSTS = [-2, -1, -0.5, 0, 0.5, 1, 2, 3, 1.5, 4, -3]
 NS = [1, 2, 2, 3, 3, 4, 5, 6]
+WIDE_NS = list(range(7, 31)) + [33, 45, 64, 81, 100, 255]     # every residue class a shortcut might single out
 EXP_BASES = [math.e, math.e, 2, 0.5, 10, 3, 1, 2.0, 0.25]
 LOG_BASES = [math.e, math.e, 2, 0.5, 10, 3, 2.0, 0.25]
 
@@ -40,7 +41,7 @@ class Gen:
 
     def n(self):
         """n of NthPower / NthRoot; sometimes spelled as an integral float, which is legal"""
-        k = self.rng.choice(NS)
+        k = self.rng.choice(NS) if self.rng.random() < 0.85 else self.rng.choice(WIDE_NS)
         return float(k) if self.rng.random() < 0.15 else k
 
     # expressions ---------------------------------------------------------------------------
